@@ -51,10 +51,11 @@
    THE STREAM GLUE (mptio: mpt_stream_push / flush / poll / dispatch, model GlueRun.v with the
    kernel as an oracle): [C02_glue_history_safe] -- for EVERY history of glue operations from fresh
    streams (ring capacities incl. none, any offsets) and EVERY kernel behaviour (partial, zero and
-   failing transfers): unless the reader's decoder has reported a genuine decoding error, what the
-   dispatcher has handed to the message handler is a prefix of the messages completed on the writer
-   side, and those are the messages the return values of mpt_stream_push say.  The proof shows
-   that each glue operation is a sequence of ring-level writer and reader operations
+   failing transfers): the reader's decoder NEVER reports a decoding error (the bytes it is fed are
+   always a prefix of a well-formed stream: [C02_queue_recv_no_error_on_stream_prefix], DecStream.v),
+   and what the dispatcher has handed to the message handler is a prefix of the messages completed
+   on the writer side, which are the messages the return values of mpt_stream_push say.  The proof
+   shows that each glue operation is a sequence of ring-level writer and reader operations
    ([C02_glue_step_refines]), so the ring theorems above apply.
 
    What remains outside the theorems (hence "partial" overall): liveness of the glue (that a drain
@@ -64,7 +65,7 @@ From MptV Require Import Base.Mem Cobs.CobsModel Cobs.DecModel Cobs.EncProofs Co
   Cobs.DecProofs Cobs.DecComplete Cobs.StreamSpec Cobs.StreamProofs
   C13.QueueModel Cobs.QueueCodec Cobs.QueuePushProofs Cobs.QueuePushTheorem Cobs.WriterHistory
   Cobs.DecCall Cobs.DecHistory Cobs.ReaderHistory Cobs.DecLive Cobs.ReaderLive Cobs.EndToEnd
-  Cobs.GlueRun Cobs.GlueProofs.
+  Cobs.DecStream Cobs.ReaderStream Cobs.GlueRun Cobs.GlueProofs.
 
 Theorem C02_wire_splits_into_frames :
   forall v ms wire, frames_of v ms wire ->
@@ -214,9 +215,17 @@ Proof. exact gstep_rel. Qed.
 Theorem C02_glue_history_safe :
   forall v wcap woff rcap roff ops w' sp' del', variant_ok v ->
     gfold v (gworld_init wcap woff rcap roff) (mkgsp [] []) [] ops = Ok (w', sp', del') ->
-    exists g', grel v w' g' /\ g_del g' = del' /\ wh_done (g_ws g') = sp_done sp' /\
-      (rh_stop (g_rs g') = false -> del' = firstn (length del') (sp_done sp')).
+    del' = firstn (length del') (sp_done sp') /\
+    exists g', grel v w' g' /\ g_del g' = del' /\ wh_done (g_ws g') = sp_done sp' /\ rh_stop (g_rs g') = false.
 Proof. exact glue_history_safe. Qed.
+
+(* ring level of the same fact: mpt_queue_recv never reports a decoding error while the bytes in
+   the input ring are a prefix of a well-formed stream *)
+Theorem C02_queue_recv_no_error_on_stream_prefix :
+  forall v F d r d1, qinv (dq_q d) -> cinv v F (dq_st d) (contents (dq_q d)) ->
+    sstream v (dq_st d) (contents (dq_q d)) -> qlen (dq_q d) <> 0 -> dqueue_recv v d = Ok (r, d1) ->
+    (r = RMsg \/ r = RMore \/ r = RErr MissingBuffer) /\ sstream v (dq_st d1) (contents (dq_q d1)).
+Proof. exact dqueue_recv_stream. Qed.
 
 (* non-vacuity: fresh streams without buffers, two ZPE messages, a failing write, a write of 0,
    partial writes and single-byte reads, dispatches in between: both messages arrive *)
@@ -293,3 +302,4 @@ Print Assumptions C02_ring_reader_delivers_all.
 Print Assumptions C02_ring_to_ring_all.
 Print Assumptions C02_glue_step_refines.
 Print Assumptions C02_glue_history_safe.
+Print Assumptions C02_queue_recv_no_error_on_stream_prefix.
